@@ -114,6 +114,9 @@ class HashedIterable(Generic[T]):
         """
         yield from self.values.values()
         for v in self.iterable:
+            if v.id_ in self.values:
+                # Listed more than once: delivered once, exactly like on every later iteration (which replays `values`).
+                continue
             self.values[v.id_] = v
             yield v
 
